@@ -9,6 +9,7 @@ theory).
 -/
 import RosedVerif.Model.InstAFacts
 import RosedVerif.Model.LinesLemmas
+import RosedVerif.Model.Totality2
 namespace RosedVerif.Props
 open RosedVerif
 
@@ -38,6 +39,31 @@ theorem C18_insertTable (ed : Editor Int) (p : Int) (d : List (List (List Int)))
     ∃ r, ed.insertTableOpts cxA p d w o = .ok r := insertTableOpts_total cxA_Sane ed p d w o
 theorem C18_apply (ed : Editor Int) (f : Nat → List Int → List (List Int)) (o : Options Int) :
     ∃ r, ed.applyOpts cxA f o = .ok r := ⟨_, applyOpts_eq_spec cxA ed f o⟩
+
+/-! the public layout operations, every argument tuple, every option combination -/
+theorem C18_wrapOpts (ed : Editor Int) (w : Int) (o : Options Int) : ∃ r, ed.wrapOpts cxA w o = .ok r :=
+  wrapOpts_total cxA_Sane ed w o
+theorem C18_justifyOpts (ed : Editor Int) (w : Int) (o : Options Int) : ∃ r, ed.justifyOpts cxA w o = .ok r :=
+  justifyOpts_total cxA_Sane ed w o
+/-- AlignOpts, paragraph mode included (where the unrepaired code panicked on an empty paragraph) -/
+theorem C18_alignOpts (ed : Editor Int) (al w : Int) (o : Options Int) : ∃ r, ed.alignOpts cxA al w o = .ok r :=
+  alignOpts_total ed al w o
+theorem C18_indentOpts (ed : Editor Int) (lv : Int) (o : Options Int) : ∃ r, ed.indentOpts cxA lv o = .ok r :=
+  indentOpts_total ed lv o
+theorem C18_insertDefTable (ed : Editor Int) (p : Int) (d : List (List Int × List Int)) (w : Int)
+    (o : Options Int) : ∃ r, ed.insertDefTableOpts cxA p d w o = .ok r :=
+  insertDefTableOpts_total cxA_Sane ed p d w o
+theorem C18_applyParas (ed : Editor Int) (op : Nat → List Int → List Int → List Int → R (List (List Int)))
+    (o : Options Int) (hop : ∀ i p a b, ∃ r, op i p a b = .ok r) : ∃ r, ed.applyParasM cxA op o = .ok r :=
+  applyParasM_total ed op o hop
+
+/-- String / CommitAll on sub-editors of any nesting depth obtained by Chars* / Lines* (and edited
+in between): every link of the parent chain is cut on code-point boundaries (`WellCut`) -/
+theorem C18_string (ed : Editor Int) (h : ed.WellCut cxA) : ∃ s, ed.string cxA = .ok s := string_total cxA_Sane h
+theorem C18_chars_wellCut {ed r : Editor Int} (h : ed.WellCut cxA) (s e : Int) (hr : ed.chars cxA s e = .ok r) :
+    r.WellCut cxA := chars_wellCut cxA_Sane h s e hr
+theorem C18_lines_wellCut {ed r : Editor Int} (h : ed.WellCut cxA) (s e : Int) (hr : ed.linesSel cxA s e = .ok r) :
+    r.WellCut cxA := linesSel_wellCut cxA_Sane h s e hr
 
 /-- the explicit panic of InsertTwoColumnsOpts is unreachable for EVERY percentage, width and gap
 (both columns are at least 2 wide); the only other failure the model admits is a negative
